@@ -42,6 +42,11 @@ func (r *run) setup(over <-chan struct{}) (feed chan int, feedDone chan struct{}
 	cleanup = func() {}
 	needCancel := r.p.Kind == kOutlive && r.p.Ctx != ctxViaTimer
 	switch {
+	case r.p.Ctx == ctxPreDL:
+		ctx, cancel := context.WithDeadline(context.Background(), time.Now().Add(-time.Second))
+		r.ctx, cleanup = ctx, cancel
+		r.ctxEndInv.Store(kit.Stamp()) // Done() was closed by WithDeadline itself
+		r.ctxEndRet.Store(kit.Stamp())
 	case r.p.Ctx == ctxDeadline || r.p.Ctx == ctxViaTimer:
 		d := time.Duration(20+r.c.R.Intn(600)) * time.Microsecond
 		ctx, cancel := context.WithTimeout(context.Background(), d)
@@ -116,6 +121,7 @@ func (r *run) invoke(feed chan int) (o outcome) {
 		}
 		return outcome{Kind: "nil"}
 	}
+	r.ctxDoneAtCall.Store(r.ctx != nil && r.ctx.Err() != nil)
 	switch r.p.API {
 	case apiMR:
 		v, err := mr.MapReduce[int, int, int](r.ufGen, r.ufMap, r.ufRed, r.opts()...)
